@@ -354,6 +354,9 @@ func (e *Engine) substStrLits(s string) string {
 	var out []string
 	for _, x := range xs {
 		y := x.Map(func(n *core.Sexp) *core.Sexp {
+			if n.IsAtom() && n.Atom == "#quote" {
+				return core.A(e.U.StrLit("\""))
+			}
 			if n.IsAtom() && strings.HasPrefix(n.Atom, "\"") && strings.HasSuffix(n.Atom, "\"") && len(n.Atom) >= 2 {
 				return core.A(e.U.StrLit(n.Atom[1 : len(n.Atom)-1]))
 			}
